@@ -191,4 +191,32 @@ def responsePar (assign : List Nat) (n : Nat) (w : Worker) (y0 : Option Row) (no
   withModel c ((schedMap assign n (fun p => (p, responseWorker w y0 normalized d c p))
     (toScan.getD (omKeys c.pars))).mapM fun pr => colOf pr.1 pr.2)
 
+/-! ### Monte-Carlo wrappers (`mc.py`): one sample = one task of C09's pool
+
+`mc.variable_elasticities` / `mc.parameter_elasticities` / `mc.response_coefficients` hand every row of
+`mc_to_scan` to `_update_parameters_and_initial_conditions` (C09 `applyRow` on a copy of the model) and then
+call the plain routine on that copy.  `variables=None` travels to the routine as `None`: the default state
+is resolved PER SAMPLE, after the sample's values were written in. -/
+
+def mcVarSample (c : Content) (sample : Row) (toScan : Option (List Name)) (vars : Option Row) (t : Rat)
+    (normalized : Bool) (d : Rat) : Except Err (List (Name × Column)) := do
+  let c1 ← applyRow c sample
+  varElasticities c1 toScan vars t normalized d
+
+def mcParSample (c : Content) (sample : Row) (toScan : Option (List Name)) (vars : Option Row) (t : Rat)
+    (normalized : Bool) (d : Rat) : Except Err (List (Name × Column)) := do
+  let c1 ← applyRow c sample
+  let r ← parElasticities c1 toScan vars t normalized d
+  pure r.2
+
+/-- `mc.response_coefficients`: `if variables is not None: model.update_variables(variables)` on the CALLER's
+    model (returned as first component: it is not undone), then per sample the sequential routine with
+    `variables=None` on the updated copy -/
+def mcRespSample (w : Worker) (c : Content) (sample : Row) (toScan : Option (List Name)) (vars : Option Row)
+    (normalized : Bool) (d : Rat) : Except Err (Content × List (Name × Column)) := do
+  let c0 ← applyY0 c vars
+  let c1 ← applyRow c0 sample
+  let r ← responseSeq w none normalized d c1 toScan
+  pure (c0, r.2)
+
 end Mxl.C18
